@@ -12,7 +12,7 @@ CFG = dict(
                    "<= c*|b| + k on the model's allocation meter with explicit (c, k) per decoder; C17_receive_total: "
                    "Receive never panics / never exhausts its fuel; C17_reject_clean: "
                    "Receive keeps the store closed (blocks valid, tables with all blocks/indices/table index/profile, commits "
-                   "with parents) for every packfile and every outcome; the pre-fix variants are refuted "
+                   "with parents) for every packfile, every outcome and every store fault (n-th Set, every Set on a key prefix, n-th Get failing); the pre-fix variants are refuted "
                    "(C17_unchecked_refuted {0,0}; C17_alloc_uncapped_refuted 8 bytes -> 96 GiB); C17_alloc_s2_refuted is the "
                    "known finding (s2.Decode allocates the announced length). Model tied to the Go code by differential "
                    "execution on mutated encodings under recover(), an allocation ceiling and a timeout.",
@@ -23,7 +23,7 @@ CFG = dict(
                    "theorems for every such function; dprof profiling and IndexBlock are not modelled beyond the shape checks "
                    "IndexTable performs before calling them). Well-formedness (bytes < 256) is a "
                    "premise of the robustness theorems.",
-        rule="fixed witnesses of the repaired defects incl. counts 256/257/1024/1025/2^23 for both decoder modes; every cut 0..len of 4 valid commits (0..3 parents) and 4 valid tables with the oracle rule that only a complete encoding may be accepted; Receive: 12 (quick) / 150 (thorough) consistent worlds (blocks, tables "
+        rule="persistence readers: stored commit/table/table-index/profile bytes and s2-compressed block / block-index values through the same mutation families (for the compressed ones both the compressed bytes and the compression of mutated plain bytes), missing key, empty value; Receive of every valid world again with the n-th Store.Set failing for every n, every key prefix failing, the n-th Store.Get failing for every n, judged by the closedness oracle; s2 headers announcing > 256 MiB are classified from s2.DecodedLen without running, except one fixed witness per class in corpus/C17; fixed witnesses of the repaired defects incl. counts 256/257/1024/1025/2^23 for both decoder modes; every cut 0..len of 4 valid commits (0..3 parents) and 4 valid tables with the oracle rule that only a complete encoding may be accepted; Receive: 12 (quick) / 150 (thorough) consistent worlds (blocks, tables "
              "with correct index sums, commit chain) sent valid and with one object dropped / moved / bit-flipped / truncated / "
              "retyped / replaced by an invalid block / duplicated / interleaved with a type-0 object, plus raw truncation and "
              "bit flips of the stream; decoders: per entry point (21 incl. reuse-mode decoders) 2 (quick) / 8 (thorough) valid encodings written by the real "
